@@ -12,12 +12,18 @@ RULE = ("[options reach the loop as the runner builds them: every case places ea
         "per-thread clock offsets and skew so that the latest end is not the caller's, the other budget sometimes set around "
         "it (min > max included); (2) random (n, s, min, max, skip, T) incl. zero, Duration::MAX and durations of 2^64 ns and more whose "
         "nanosecond count has small low 64 bits (multiples of 2^55 s, 2^63 s, u64::MAX s) on either bound; (3) skip_ext_time with "
-        "rounds faster than 1 ns (the 1 ns floor decides the round count). The harness logs every timestamp the loop takes; "
+        "rounds faster than 1 ns (the 1 ns floor decides the round count); (4) end to end: hx-loop-e2e through Divan::main with --min-time/--max-time/"
+        "DIVAN_MIN_TIME/DIVAN_MAX_TIME as decimal seconds with sub-millisecond parts, the benchmark running on the virtual clock (--timer tsc), rounds "
+        "compared with the model under the exactly converted limits (decimal_nanos); (5) two runs on the OS timer (Instant) with calls of at "
+        "least 400 ms under a 1 s ceiling, judged by the bound of C04_rounds_bounded. The harness logs every timestamp the loop takes; "
         "the log drives the extracted model; the extracted c04_sb (rounds = least k with not continue_after k, computed "
         "declaratively from the logged timestamps) is evaluated on the implementation's output. "
         "Non-trivial = agreed `ok` line with at least one round; distinct by input line.")
 ASSUMPTIONS = [
-    "time is the per-thread virtual timestamp counter (TscTimestamp::start/end return it); the OS timer path (Instant) and real TSC reads are not exercised",
+    "time is the per-thread virtual timestamp counter (TscTimestamp::start/end return it); the OS timer path (Instant) is only exercised by the two "
+    "c04-os-timer-ceiling runs (an upper bound on the rounds, no exact history); real TSC reads are not exercised",
+    "decimal seconds on the command line go through f64 (str::parse + Duration::try_from_secs_f64); the model converts the decimal exactly; "
+    "the generated values have at most 9 fractional digits and are below 1000 s, where the two agree",
     "Timestamp -> picoseconds is C11's model (tsc_duration), reused here",
     "the T raw samples of a round come back in thread order (C06's subject)",
 ]
@@ -91,8 +97,11 @@ def streams(tier, rng):
             c["max"] = L.ns(max(0, k + rng.choice([-2, 0, 1, 3])))
         if L.fits(c):
             floor.append(c)
+    cli = L.cli_time_cases(rng, 45 if not big else 400)
     return [
         L.make_stream("c04-corpus", "c04", L.corpus("C04")),
+        L.cli_time_stream("c04-cli-time-limits", cli),
+        L.os_timer_stream("c04-os-timer-ceiling"),
         L.make_stream("c04-boundaries", "c04", aimed, hist=L.histogram(aimed),
                       describe="min/max at the elapsed time of a round, -1/0/+1 tick"),
         L.make_stream("c04-random-budgets", "c04", rand, hist=L.histogram(rand),
